@@ -109,7 +109,7 @@ template <int ID> struct StRankLayer<ID, true> : VM_STATE_BASE(ID) {
   using Base = FSM::State;
   typename Base::Rank rank(const typename Base::Control&) {
     trace_push(ID, Method::RANK);
-    if (!g_rank_called[ID]) { g_rank_called[ID] = true; g_rank_val[ID] = nd_i8(); VASSUME(g_rank_val[ID] >= 0 && g_rank_val[ID] <= 1); }
+    if (!g_rank_called[ID]) { g_rank_called[ID] = true; g_rank_val[ID] = nd_i8(); VASSUME(g_rank_val[ID] >= -1 && g_rank_val[ID] <= 1); }
     return g_rank_val[ID];
   }
 };
